@@ -39,7 +39,7 @@ VERSIONS = tuple(range(4, 15))
 FAIL_KINDS = ("none", "none", "error", "rstack", "lost", "eof", "silent")
 PROBES = ["soak.epochs", "soak.reconnect_other_version", "soak.fail.error", "soak.fail.rstack", "soak.fail.lost", "soak.fail.eof", "soak.fail.silent", "soak.fail.none",
           "soak.send.success", "soak.send.failure", "soak.send.never", "soak.send.cut_by_failure", "soak.incoming", "soak.join", "soak.leave", "soak.mc_subscribe",
-          "soak.mc_unsubscribe", "soak.keepalives", "soak.faulty_line", "soak.reported", "soak.sends_in_progress_at_failure", "soak.exception_escaped_after_failure"]
+          "soak.mc_unsubscribe", "soak.keepalives", "soak.faulty_line", "soak.start.zigpy", "soak.start.zigpy-fresh", "soak.started_by_zigpy_initialize", "soak.reported", "soak.sends_in_progress_at_failure", "soak.exception_escaped_after_failure"]
 
 
 def run(params, tape, detail=False):
@@ -51,7 +51,17 @@ def run(params, tape, detail=False):
     rig = e3app.AppRig(tape, version=V0, sched=params.get("sched", True), plan=plan_, fast_line=not faults, chunking=faults, K=1 + tape.draw(3, "K"))
     rig.line.ties = False
     loop, ncp, nash = rig.loop, rig.ncp, rig.ncp_ash
-    ncp.preform()
+    # how the application is brought up: 'wired' = connect() + start_network() on a stick that already has a network; 'zigpy' = connect() +
+    # zigpy's own initialize(auto_form=True) (which also starts zigpy's watchdog task) on such a stick; 'zigpy-fresh' = the same on a stick that
+    # never had a network (zigpy forms one: ephemeral network, energy scan, final settings, second start_network on the same connection)
+    start_mode = params.get("start") or ("wired", "wired", "zigpy", "zigpy-fresh")[tape.draw(4, "start")]
+    if start_mode != "zigpy-fresh":
+        ncp.preform()
+    import bellows.zigbee.application as appmod
+
+    from .props.c14 import OsShim
+
+    appmod.os = OsShim(tape)
     viol, probes = [], {}
 
     def probe(n, k=1):
@@ -219,17 +229,25 @@ def run(params, tape, detail=False):
         ncp.auto_confirm = True
         lost0 = len(rig.lost)
         try:
+            by_zigpy = start_mode != "wired" if e == 0 else bool(tape.draw(2, "restart.by_zigpy"))
             if e == 0:
-                pass  # started by start_app()
+                pass  # started in main()
             else:
                 await app.connect()
                 rig.ezsp = app._ezsp
-                await app.start_network()
+                if by_zigpy:
+                    await app.initialize(auto_form=True)
+                else:
+                    await app.start_network()
         except Exception as ex:  # noqa: BLE001
             viol.append(("C09.retry", "soak-reconnect", f"soak: epoch {e} (NCP v{V}): connect()/start_network() raised {ex!r} on a quiet line"))
             return False
         ncp.auto_confirm = False
-        wd = loop.create_task(app._watchdog_loop())
+        if by_zigpy:
+            probe("started_by_zigpy_initialize")
+            wd = app._watchdog_task  # zigpy's own
+        else:
+            wd = loop.create_task(app._watchdog_loop())
         await asyncio.sleep(0.2)
         if plan_ is not None:
             plan_.on = True
@@ -333,7 +351,18 @@ def run(params, tape, detail=False):
         return True
 
     async def main():
-        app = await rig.start_app()
+        if start_mode == "wired":
+            app = await rig.start_app()
+        else:
+            import zigpy.config as zc
+
+            probe("start." + start_mode)
+            nwk_cfg = {zc.CONF_NWK_PAN_ID: 0x1A2B, zc.CONF_NWK_EXTENDED_PAN_ID: zt.ExtendedPanId.convert("11:22:33:44:55:66:77:88"), zc.CONF_NWK_KEY: zt.KeyData(bytes(range(16)))}
+            app = rig.make_app(**{zc.CONF_NWK: nwk_cfg})
+            ncp.auto_confirm = True
+            await app.connect()
+            rig.ezsp = app._ezsp
+            await app.initialize(auto_form=True)
         st["app"] = app
         for e in range(nepochs):
             if e > 0:
